@@ -127,6 +127,13 @@ def gen():
     po = _norm(bl)
     if "fnpos_of(&mutself,data:[Cow<str>;POS_DEPTH])->DicWriteResult<u16>{matchself.pos.get(&data){Some(pos)=>Ok(*pos),None=>{letkey=StrPosEntry::new(data);letpos_id=self.pos.len();" not in po:
         raise F.FactError("pos_of is no longer `existing id or next id`")
+    # references of a user dictionary are resolved / validated against the system dictionary only
+    rs = _norm(F.strip_comments(F.src("sudachi/src/dic/build/resolve.rs")))
+    nu2 = _norm(F.fn_body(bm, "new_user", "build/mod.rs"))
+    sys_refs = ("letlex=dict.lexicon();letsize=lex.num_system_words();" in rs
+                and "set_num_system_words(system.lexicon().num_system_words()asusize);" in nu2
+                and "fnnum_system_words(&self)->u32{self.lexicons[0].size()}" in _norm(ls))
+    out.append("Definition refs_against_system_only : bool := %s.\n" % ("true" if sys_refs else "false"))
     # LoadedDictionary: num_system_pos is the POS count of the system dictionary file
     dm = F.strip_comments(F.src("sudachi/src/dic/mod.rs"))
     for fn in ("from_system_dictionary", "to_loaded"):
